@@ -29,7 +29,9 @@ RULE = ('Hypothesis: FileSpec (1-5 dims of length 1-6, <=1 unlimited, 1-5 '
         'variable S2-S5 / U2-U5 without d) x stack dimension d (any dimension, biased to ones that '
         'variables use).  Family split (2/3 of cases): partition of len(d) '
         'into 1-4 consecutive non-empty pieces made by numpy slicing of the '
-        'spec, each built as an independent library file, then '
+        'spec, each built as an independent library file (3/5), or cut by '
+        'the library itself from the original with a slice, an index list or '
+        'np.arange (dimension table of every piece = the original\'s), then '
         'pieces[0].stack(pieces[1:], d) (a single other file is also passed '
         'bare).  Family indep: 2-4 files of one schema with independently '
         'drawn data, masks and len(d).  Oracle: every variable holding d '
@@ -121,6 +123,8 @@ def cases(draw, tier='quick'):
                     if entry != 'method' else None,
                     order=draw(orders(k, entry)),
                     text=draw(textvars(fs, d)),
+                    cutby=draw(st.sampled_from(['model', 'model', 'lib-slice',
+                                                'lib-list', 'lib-arange'])),
                     **draw(coordmodes(fs, d, entry)))
     k = draw(st.integers(2, 4))
     files = [fs]
@@ -323,7 +327,10 @@ def check_case(case):
         for s in specs:
             edges.append(edges[-1] + A.dlen_of(s)[d])
         r.label('family:indep')
-    if case.get('vary_gattrs', True):
+    cut = case.get('cutby', 'model') if case['family'] == 'split' else \
+        'model'
+    uedges = list(edges)
+    if cut == 'model' and case.get('vary_gattrs', True):
         # every distinct input carries its own global attribute values: the
         # result must carry the FIRST argument's
         specs = [dict(s_, gattrs=dict(s_.get('gattrs') or {},
@@ -358,6 +365,30 @@ def check_case(case):
     models = [S.model_of(s) for s in specs]
     m0 = models[0]
     ufiles = [S.build_file(s) for s in uspecs]
+    if cut != 'model':
+        # the pieces are cut by the LIBRARY from the original file, with a
+        # slice, an index list or an index array; each piece must have the
+        # original's dimension table (only len(d) differs) before stacking
+        r.label('cut:' + cut)
+        orig = S.build_file(case['file'])
+        morig = S.model_of(case['file'])
+        ufiles = []
+        for a_, b_ in zip(uedges[:-1], uedges[1:]):
+            sel = slice(a_, b_) if cut == 'lib-slice' else (
+                list(range(a_, b_)) if cut == 'lib-list'
+                else np.arange(a_, b_))
+            okc, pc = guard(r, 'split-raises',
+                            lambda: orig.sliceDimensions(**{d: sel}))
+            if not okc:
+                r.failures[-1].klass = cut
+                return r
+            wantp = {n_: ((b_ - a_) if n_ == d else l_, u_)
+                     for n_, (l_, u_) in morig.dims.items()}
+            for msg in A.cmp_dims(pc, wantp, 'piece %d:%d' % (a_, b_)):
+                r.fail('split-dims', msg, klass=cut)
+            ufiles.append(pc)
+        if r.failures:
+            return r
     files = [ufiles[i] for i in order] if order else ufiles
     txt = case.get('text')
     if txt and entry in ('method', 'stack_files') and mode != 'netcdf':
